@@ -438,7 +438,7 @@ RetRec(s) ==
        [] f.fn = "start" /\ f.r = 1 /\ f.x = <<"fork">> ->
             \* in the forked child: start returned 0; pid and wait are rejected there (only destroy is allowed)
             base @@ [r |-> 1, fchild |-> <<0, EINVAL, EINVAL>>]
-       [] f.alt # {} -> base @@ [r |-> [any |-> SetToSeq({f.r} \cup f.alt)]]
+       [] f.alt # {} -> base @@ [r |-> [any |-> SetToSeq({f.r} \cup f.alt)], ralt |-> 1]
        [] OTHER -> base @@ [r |-> f.r]
 
 NoArgs == [e |-> "call"]
